@@ -270,3 +270,23 @@ fn c04_smh2_step_m4() {
 fn c04_smh2_first_m3() {
     c04_smh2_first::<3>();
 }
+
+// C12 part 1 — two instances, same input, identical sketches
+fn c12_two_instances2<const M: usize>() {
+    let mut a = Smh2::new(M, BuildHasherDefault::<NoHashHasher>::default());
+    let mut b = Smh2::new(M, BuildHasherDefault::<NoHashHasher>::default());
+    let x: u64 = kani::any();
+    assert!(a.sketch(&x).is_ok());
+    assert!(b.sketch(&x).is_ok());
+    for k in 0..M {
+        assert!(a.get_hsketch()[k] == b.get_hsketch()[k]);
+        assert!(a.values[k] == b.values[k] && a.l[k] == b.l[k] && a.b[k] == b.b[k]);
+    }
+    assert!(a.a_upper == b.a_upper && a.item_rank == b.item_rank);
+    kani::cover!(a.l[0] == 0, "witness");
+}
+#[kani::proof]
+#[kani::unwind(5)]
+fn c12_smh2_m2() {
+    c12_two_instances2::<2>();
+}
